@@ -28,7 +28,7 @@ def law(job):
     a, b, cfgkey = job
     md = A.md_for(cfgkey)
     a1 = a + "\n"
-    return {"op": "concat", "maxn": md.options["maxNesting"], "a": {},
+    return {"op": "concat", "maxn": md.options["maxNesting"], "a": {}, "a0": A.parse(md, a, kids=False),
             "a1": A.parse(md, a1, kids=False), "ap": A.parse(md, a1 + "P\n", kids=False),
             "base": A.parse(md, b, kids=False), "der": A.parse(md, a1 + b, kids=False)}
 
